@@ -44,7 +44,7 @@ ASSUMPTIONS = [
 ]
 BOUNDS = {"quick": "n in 1..5 x k in 1..4, deviations <= 2; (17,16) and (33,16) deviations <= 1; faults at every position for n<=4,k in {2,3}",
           "thorough": "n in 1..7 x k in 1..4 and (9,2), deviations <= 3; (9,3), (8,4) deviations <= 2; (12,8), (17,16), (33,16) one deviation"}
-REQUIRED_BUCKETS = {t: ["schedules:replayed", "schedules:reordered-completion", "faults:raised-in-worker", "faults:timeout", "content:records", "content:catalogue-records", "content:origin-spanning-gene-records", "histories:checked", "preprocess:compared"]
+REQUIRED_BUCKETS = {t: ["schedules:replayed", "schedules:reordered-completion", "faults:raised-in-worker", "faults:timeout", "faults:worker-lost", "faults:lost-worker-control", "content:records", "content:catalogue-records", "content:origin-spanning-gene-records", "histories:checked", "preprocess:compared"]
                     for t in ("quick", "thorough")}
 N_MAX = 40
 WATCHDOG = 60.0
